@@ -4,6 +4,8 @@ NEXT Next
 CONSTANTS
   EpochFmt = FALSE
   KeepLB = TRUE
+  BestTrain = FALSE
+  Params <- FsP0
   MaxE = 4
   MaxCrash = 1
   Levels = {1, 2, 3}
